@@ -76,6 +76,14 @@ def generate(streams: core.Streams, tier: str) -> dict:
         c = gen.gen_correlation(w, f"C{j}", refs, rid=gen.UUIDS[5 + j], name=f"corr_{j}", generate=g)
         if c["correlation"]["type"] in ("temporal", "temporal_ordered") and "condition" in c["correlation"]:
             c["correlation"]["condition"].pop("field", None)
+        if gen.chance(w, 0.25):
+            # extended condition: the references exist only in the condition text, there is no rules list
+            c["correlation"]["type"] = gen.pick(w, ["temporal", "temporal_ordered"])
+            expr = refs_docs[0]["name"]
+            for r in refs_docs[1:]:
+                expr += gen.pick(w, [" and ", " or ", " and not "]) + r["name"]
+            c["correlation"]["condition"] = expr
+            del c["correlation"]["rules"]
         for r in refs_docs:
             gen_flag[r["title"]] = g
         c["_refs"] = [r["title"] for r in refs_docs]
@@ -83,7 +91,10 @@ def generate(streams: core.Streams, tier: str) -> dict:
     dangling = None
     if corr and gen.chance(w, 0.12):
         victim = gen.pick(w, corr)
-        victim["correlation"]["rules"] = list(victim["correlation"]["rules"]) + ["no_such_rule"]
+        if "rules" in victim["correlation"]:
+            victim["correlation"]["rules"] = list(victim["correlation"]["rules"]) + ["no_such_rule"]
+        else:
+            victim["correlation"]["condition"] += " and no_such_rule"
         dangling = victim["title"]
     if gen.chance(w, 0.06):
         # nobody in the set carries a name or id; one correlation rule refers to a rule that is not there
@@ -140,7 +151,12 @@ def _chunks(s: Random, n: int, k: int) -> list[int]:
 
 
 def _delivery(s: Random, n: int) -> dict:
-    kind = gen.pick(s, ["from_yaml", "from_dicts", "load_ruleset", "merge"])
+    kind = gen.pick(s, ["from_yaml", "from_dicts", "load_ruleset", "merge", "reuse_objects"])
+    if kind == "reuse_objects":
+        # the rule objects were part of another, already resolved (and maybe converted) collection before;
+        # some of them are replaced by freshly loaded copies of the same documents
+        return {"kind": kind, "replace": [i for i in range(n) if gen.chance(s, 0.3)], "preconvert": gen.chance(s, 0.5),
+                "via": gen.pick(s, ["constructor", "merge"])}
     if kind == "load_ruleset":
         sizes = _chunks(s, n, s.randint(1, min(n, 4)))
         names = []
@@ -224,6 +240,37 @@ def _load(sc: dict, entry: dict, scratch: str) -> Any:
             inner = SigmaCollection.merge(parts[:1], resolve_references=False)
             return SigmaCollection.merge([inner, parts[1]])
         return SigmaCollection.merge(parts)
+    if kind == "reuse_objects":
+        # history: a first collection with every document (plus a stand-in for a missing target, so that
+        # it resolves), loaded, resolved and possibly converted; the collection under test is built from
+        # those very rule objects in the scheduled order, some replaced by fresh copies, the stand-in left out
+        from sigma.correlations import SigmaCorrelationRule
+        from sigma.rule import SigmaRule
+        from sigsim import simbackend
+
+        first_docs = [copy.deepcopy(d) for d in sc["documents"]]
+        if sc["dangling"]:
+            first_docs.insert(0, {"title": "Standin", "name": "no_such_rule", "logsource": {"category": "test"},
+                                  "detection": {"sel": {"a": "b"}, "condition": "sel"}})
+        first = SigmaCollection.from_dicts(first_docs)
+        if dl.get("preconvert"):
+            world.capture(lambda: simbackend.CLASSES[sc["cls"]]().convert(first))
+        by_title = {r.title: r for r in first.rules}
+        objs = []
+        for pos_, i in enumerate(entry["perm"]):
+            d = sc["documents"][i]
+            if pos_ in dl.get("replace", []):
+                one = SigmaCollection.from_dicts([copy.deepcopy(d)], resolve_references=False)
+                objs.append(one.rules[0])
+            else:
+                objs.append(by_title[d["title"]])
+        if dl.get("via") == "merge":
+            half = max(1, len(objs) // 2)
+            parts = [SigmaCollection(objs[:half], resolve_references=False)]
+            if objs[half:]:
+                parts.append(SigmaCollection(objs[half:], resolve_references=False))
+            return SigmaCollection.merge(parts)
+        return SigmaCollection(objs)
     raise core.HarnessError("unknown delivery " + kind)
 
 
@@ -414,7 +461,7 @@ def shrink(sc: dict) -> Iterable[dict]:
         yield c
     # drop one reference of a correlation that has several
     for j, d in enumerate(sc["documents"]):
-        if "correlation" in d and len(sc["refs"].get(d["title"], [])) > 1:
+        if "correlation" in d and "rules" in d["correlation"] and len(sc["refs"].get(d["title"], [])) > 1:
             for k in range(len(sc["refs"][d["title"]])):
                 c = copy.deepcopy(sc)
                 del c["refs"][d["title"]][k]
@@ -460,6 +507,10 @@ def _fit_delivery(dl: dict, n: int) -> dict:
         out["sizes"] = [sizes[i] for i in keep]
         if dl["kind"] == "load_ruleset":
             out["files"] = [dl["files"][i] for i in keep]
+        return out
+    if dl["kind"] == "reuse_objects":
+        out = dict(dl)
+        out["replace"] = [i for i in dl.get("replace", []) if i < n]
         return out
     return dl
 
